@@ -12,22 +12,22 @@ boot.import_dfols()
 from dsim import checks  # noqa
 
 TEXT = {
- 'C01': ('exploration', "Seeded simulation of bounded solves with the objfun seam asserting lower <= x <= upper bit-exactly (NaN fails) at every evaluation and on soln.x, over x0 placements, bound shapes, scaling, noise, averaging, restarts, regression, growing, regularised and convex+bounds worlds, forced base shifts and value faults. Sampling evidence, not proof; right level because the property quantifies over every evaluation of every history, which only running histories can reach.", '4 C01'),
- 'C02': ('fault_enumeration', "Refinement of the recorded (objfun calls, nsamples replies, log records) history against a counter automaton; per sampled world the budget cut is enumerated at every k = 1..nf_ref (all k in thorough tier), so every 'budget ran out here' path of that world is visited; plus swarm and value-fault legs.", '4 C02'),
- 'C03': ('exploration', "Post-run and once-per-iteration check of (x, resid, obj, xmin_eval_num) against the recorded calls on every exit route the swarm / cut-point / regularised / faulted legs reach.", '4 C03'),
- 'C04': ('exploration', "Deterministic worlds only: returned obj <= every finite recorded objective, at exit, per run (hard restarts) and at every iteration; NaN regions, convex sets, regulariser, single value faults, cut-point enumeration.", '4 C04'),
- 'C07': ('fault_enumeration', "(a) the argument-fault catalogue (one argument / user parameter / contradiction replaced per call, per-key entries generated from the live ParameterList) is enumerated completely over 6 base worlds: no exception, input-error flag, zero events at any seam, unknown key -> ValueError, boundary values accepted; (b) well-formed result on every exit route reached by fault-free swarms; (c) return within the deterministic step cap.", '4 C07'),
- 'C08': ('fault_enumeration', "Per sampled world a fault-free reference run, then every evaluation index k x {NaN,+inf,-inf,1e200} x {one,all components} plus a raised exception, then from-k-on faults, then random multi-fault schedules and NaN-region worlds; oracle: terminates, does not raise (except opt-in / the injected exception by identity), bounds+budget kept, finite evaluated x, a bad value never displaces a finite best point.", '4 C08'),
+ 'C01': ('exploration', "Seeded simulation of bounded solves with the objfun seam asserting lower <= x <= upper bit-exactly (NaN fails) at every evaluation and on soln.x, over x0 placements, bound shapes, scaling, noise, averaging, restarts, regression, growing, regularised and convex+bounds worlds, forced base shifts and value faults. Plus the internal-seam fault enumeration: every handled, feasible linear solve of the interpolation system of a reference run fails in turn ('singular system'), alone and in pairs, which drives the restart-after-failure branches of the main loop. Sampling evidence, not proof; right level because the property quantifies over every evaluation of every history, which only running histories can reach.", '4 C01'),
+ 'C02': ('fault_enumeration', "Refinement of the recorded (objfun calls, nsamples replies, log records) history against a counter automaton; per sampled world the budget cut is enumerated at every k = 1..nf_ref (all k in thorough tier), so every 'budget ran out here' path of that world is visited; plus swarm and value-fault legs. Plus the internal-seam fault enumeration: every handled, feasible linear solve of the interpolation system of a reference run fails in turn ('singular system'), alone and in pairs, which drives the restart-after-failure branches of the main loop. Plus target enumeration: the 'objective is sufficiently small' exit is made to fire at every record evaluation of a reference run, alone and right after a NaN / inf reply.", '4 C02'),
+ 'C03': ('exploration', "Post-run and once-per-iteration check of (x, resid, obj, xmin_eval_num) against the recorded calls on every exit route the swarm / cut-point / regularised / faulted legs reach. Plus the internal-seam fault enumeration: every handled, feasible linear solve of the interpolation system of a reference run fails in turn ('singular system'), alone and in pairs, which drives the restart-after-failure branches of the main loop. Plus target enumeration: the 'objective is sufficiently small' exit is made to fire at every record evaluation of a reference run, alone and right after a NaN / inf reply.", '4 C03'),
+ 'C04': ('exploration', "Deterministic worlds only: returned obj <= every finite recorded objective, at exit, per run (hard restarts) and at every iteration; NaN regions, convex sets, regulariser, single value faults (every k, also followed by a budget cut 1-2 evaluations later), cut-point enumeration. Plus the internal-seam fault enumeration: every handled, feasible linear solve of the interpolation system of a reference run fails in turn ('singular system'), alone and in pairs, which drives the restart-after-failure branches of the main loop. Plus target enumeration: the 'objective is sufficiently small' exit is made to fire at every record evaluation of a reference run, alone and right after a NaN / inf reply.", '4 C04'),
+ 'C07': ('fault_enumeration', "(a) the argument-fault catalogue (one argument / user parameter / contradiction replaced per call, per-key entries generated from the live ParameterList) is enumerated completely over 6 base worlds: no exception, input-error flag, zero events at any seam, unknown key -> ValueError, boundary values accepted; (b) well-formed result on every exit route reached by fault-free swarms; (c) return within the deterministic step cap; (d) internal-seam fault enumeration ('singular interpolation system' at every handled linear solve, also in the growing phase): must end in a documented flag, never raise.", '4 C07'),
+ 'C08': ('fault_enumeration', "Per sampled world a fault-free reference run, then every evaluation index k x {NaN,+inf,-inf,1e200} x {one,all components} plus a raised exception (the harness' own class and the classes dfols itself catches: LinAlgError, ValueError, OverflowError), then from-k-on faults, then random multi-fault schedules and NaN-region worlds; oracle: terminates, does not raise (except opt-in / the injected exception by identity), bounds+budget kept, finite evaluated x, a bad value never displaces a finite best point.", '4 C08'),
  'C09': ('exploration', "Wrapper round the alternating-projection routine as imported by each dfols module; every evaluated point after x0 must be bit-identical to a recorded output, within sqrt(p*tol) of each set when the stop rule fired (theorem of the stopping quantity), bound box exact; infeasible x0 replaced by its projection.", '4 C09'),
- 'C10': ('exploration', "History oracle coupling (flag, msg) to recorded facts: obj vs tolerance, captured rho vs rescaled rhoend (bit-exact), #calls == maxfun, restart events counted at the seams vs nruns, success => finite obj.", '4 C10'),
- 'C11': ('exploration', "Independent least-squares fit to the recorded calls named by jacmin_eval_nums compared with soln.jacobian under a conditioning-scaled tolerance (and with A for linear worlds); bounds, scaling, npt n+1..2n+1, cut points, soft/hard restarts, averaging.", '4 C11'),
+ 'C10': ('exploration', "History oracle coupling (flag, msg) to recorded facts: obj vs tolerance, captured rho vs rescaled rhoend (bit-exact), #calls == maxfun, restart events counted at the seams vs nruns, success => finite obj. Plus the internal-seam fault enumeration: every handled, feasible linear solve of the interpolation system of a reference run fails in turn ('singular system'), alone and in pairs, which drives the restart-after-failure branches of the main loop. Plus target enumeration: the 'objective is sufficiently small' exit is made to fire at every record evaluation of a reference run, alone and right after a NaN / inf reply.", '4 C10'),
+ 'C11': ('exploration', "Independent least-squares fit to the recorded calls named by jacmin_eval_nums compared with soln.jacobian under a conditioning-scaled tolerance (and with A for linear worlds); bounds, scaling, npt n+1..2n+1, cut points, soft/hard restarts, averaging. Plus the internal-seam fault enumeration: every handled, feasible linear solve of the interpolation system of a reference run fails in turn ('singular system'), alone and in pairs, which drives the restart-after-failure branches of the main loop.", '4 C11'),
  'C12': ('exploration', "REDUCED SCOPE (class B): rounding-aware postconditions asserted on every call the solver makes to the box trust-region routine during simulated, fault-perturbed runs. Inputs the solver cannot produce (indefinite H, degenerate boxes) are not covered - the statement's direct quantifier over all inputs is not decided by this technique.", '4 C12, 5'),
  'C13': ('exploration', "REDUCED SCOPE (class B): in-situ assertions on every call to the geometry step (global maximum via a bisection oracle), the PGD / S-FISTA / convex geometry solvers (norm bound) and the regularised trust-region step (predicted reduction) during simulated runs.", '4 C13, 5'),
  'C14': ('exploration', "REDUCED SCOPE for the generators (class B): prefix of every bounded history with coordinate initialisation (first npt points: projected x0, inside bounds, distances in [0.01,2]*rhobeg, cond < 1e4) over all x0 placements; in-situ assertions on the random direction generators, which consume the simulator-owned global RNG.", '4 C14, 5'),
  'C15': ('exploration', "REDUCED SCOPE (class B): the routine's own contract asserted on every call made from dfols.model / solver / controller / trust_region in convex and regularised worlds; reference run to tol 1e-30 for a deterministic sample at tol <= 1e-10.", '4 C15, 5'),
  'C16': ('exploration', "Seeded operation histories (replace / grow / append / swap / base shift / refit / factorise-then-mutate) on a real Model with identities checked after every step (tolerance 1e3*eps*cond*scale), shrunk by ddmin; plus the same identities after every fit inside simulated solves.", '4 C16'),
  'C17': ('exploration', "Seeded operation histories on a real Model against a shadow model, with NaN/inf/exact ties injected as data faults, with and without a regulariser; shrunk by ddmin.", '4 C17'),
- 'C18': ('exploration', "Time-series invariants over soln.diagnostic_info of every simulated run with diagnostics on, cross-checked row by row with the harness' own iteration events.", '4 C18'),
+ 'C18': ('exploration', "Time-series invariants over soln.diagnostic_info of every simulated run with diagnostics on, cross-checked row by row with the harness' own iteration events; includes 'long march' worlds (minimiser 1e11-1e14 away) in which the radius reaches its 1e10 cap. Plus the internal-seam fault enumeration: every handled, feasible linear solve of the interpolation system of a reference run fails in turn ('singular system'), alone and in pairs, which drives the restart-after-failure branches of the main loop.", '4 C18'),
  'C19': ('exploration', "Sessions: the same non-randomised call under different global-RNG states, with the environment drawing from the shared RNG between solver draws, after an unrelated call and after a call that raised; bit-identical behaviour digests; caller-side snapshots of all arguments compared after every call of every leg.", '4 C19'),
  'C20': ('exploration', "Every result object with a solution produced by the simulated runs (all exit flags reached, NaN from injected faults, diagnostics on/off) goes through to_dict -> strict json -> from_dict -> str; plus field faults injected into real results. The property itself is a pure function of the result object; the simulator contributes the population of results.", '4 C20'),
 }
@@ -69,7 +69,7 @@ m = {
  'hooks': {'guard': 'DFOLS_VERIF', 'enable': 'no source hooks exist: every seam is a public callback argument or a module/class attribute patched from the harness at run time (dsim/sim.py, dsim/probes.py); the guard name is reserved and unused',
            'baseline_off_cmd': 'cd /repo && /venv/bin/python -m pytest -ra -q -p no:cacheprovider --timeout=900 --continue-on-collection-errors', 'source_commits': [], 'add_only': True},
  'engines': [
-  {'name': 'dsim/solve', 'path': 'dsim/sim.py', 'serves_properties': [c for c in claimed if c not in ('C16', 'C17')], 'kind_free_text': 'single-process deterministic simulator of solve(): all callbacks, the global RNG, logging, warnings and stdout are played by the harness; scenario JSON = replay file; seeded swarm generator, cut-point / fault-point / argument-fault enumeration legs, sessions, in-situ probes, delta-debugging minimiser, fresh-interpreter replay'},
+  {'name': 'dsim/solve', 'path': 'dsim/sim.py', 'serves_properties': [c for c in claimed if c not in ('C16', 'C17')], 'kind_free_text': 'single-process deterministic simulator of solve(): all callbacks, the global RNG, logging, warnings and stdout are played by the harness; scenario JSON = replay file; seeded swarm generator, cut-point / fault-point / argument-fault / linear-algebra-fault / target enumeration legs, sessions, in-situ probes, delta-debugging minimiser, fresh-interpreter replay'},
   {'name': 'dsim/model', 'path': 'dsim/model_machine.py', 'serves_properties': ['C16', 'C17'], 'kind_free_text': 'seeded stateful operation histories on a real dfols Model against a shadow model / identities, ddmin shrinking, op list = replay file'},
  ],
  'checks': [],
